@@ -53,7 +53,10 @@ GENERIC = (
     "mask-vs-contains comparisons; `subpixels=1`; round axis ratios (100); query positions in another equinox of the same frame class; slit-like "
     "rectangles (aspect >= 8); `numpy.bool_` flags; `write()` losing options that `serialize()` honours; MaskedArray images; capital letters in file "
     "names; `rotate(center=..., angle=...)` by keyword; x/y of equal size but different shapes; stale private flags on copied bounding boxes; "
-    "module-level 'warn once' sets; astropy global equivalencies enabled without `with`.")
+    "module-level 'warn once' sets; astropy global equivalencies enabled without `with`; np.ogrid-style open-grid queries; parallelograms taken for "
+    "rectangles; a mask object modified by being used; zero-area polygons; white space inside parentheses; NumPy print options / other process-wide "
+    "settings; non-float64 query coordinates re-typed in place; `~` in file names; N-D `PixCoord.rotate`; exchanged compound operands; alias keys "
+    "(`width`, `point`) through `update`; plot origins with one zero component; annulus holes exactly similar to the outline.")
 
 LEFT = (
     "Think about what is LEFT: e.g. the order in which two independent features are applied; behaviour at the exact edge of a documented domain "
